@@ -104,7 +104,7 @@ Print Assumptions C17_dial_addr_brackets_refuted.
 (* upstream (client) side: an exchange can proceed only if verification is explicitly disabled or the server's
    certificate chains to the configured CA (system roots when none is configured), matches the server name and is
    within its validity period *)
-Theorem C17_verify : forall (cert : Type) (chains_to : pool -> cert -> bool)
+Theorem C17_verify : forall (cert : Type) (chains_to : ca_pool -> cert -> bool)
     (name_matches : cert -> list N -> bool) (time_valid : cert -> bool) o sni peer,
   upstream_exchange_ok cert chains_to name_matches time_valid o sni peer = true ->
   o_insecure o = true \/
@@ -115,7 +115,7 @@ Proof. exact verify_client_side. Qed.
 Print Assumptions C17_verify.
 
 (* listener side with verify_client_cert: served => the client presented a certificate chaining to the configured CA *)
-Theorem C17_verify_listener : forall (cert : Type) (chains_to : pool -> cert -> bool) (time_valid : cert -> bool) o peer,
+Theorem C17_verify_listener : forall (cert : Type) (chains_to : ca_pool -> cert -> bool) (time_valid : cert -> bool) o peer,
   o_verify_client o = true ->
   listener_serves cert chains_to time_valid o peer = true ->
   exists k, peer = Some k /\ chains_to ConfiguredCA k = true /\ time_valid k = true.
